@@ -62,6 +62,20 @@ def make_curve_set(rng, mix, n_curves=None, n_points=None, ctype="weight", t_cen
     return pv.DiffusionCurveSet(name="synthetic", diffusion_curves=curves)
 
 
+def make_extreme_program(rng, T0, horizon):
+    """programmes that leave the physical range within the run: down to a few kelvin, overflowing, or undefined"""
+    h = max(horizon, 1e-9)
+    T0 = float(T0)
+    u = rng.random()
+    if u < 0.4:                         # linear, reaching 1..30 K at the end
+        return pv.TemperatureProgram(coefficients=[T0, -(T0 - rng.uniform(1.0, 30.0)) / h], type="polynomial")
+    if u < 0.7:                         # exponential that overflows to +inf before the end
+        return pv.TemperatureProgram(coefficients=[T0, 0.0, rng.uniform(750.0, 3000.0) / h], type="exponential")
+    if u < 0.85:                        # logarithm of an argument that turns negative (NaN)
+        return pv.TemperatureProgram(coefficients=[T0 / math.log(10.0), 10.0, -rng.uniform(11.0, 40.0) / h], type="logarithmic")
+    return pv.TemperatureProgram(coefficients=[T0, -2.0 * T0 / h], type="polynomial")      # below 0 K
+
+
 def make_program(rng, T0, horizon):
     """A temperature programme that stays within 273..400 K over [0, horizon] hours; its value at t = 0 is the initial feed
     temperature or (30 %) a few kelvin off it (the series still starts at the stated initial temperature)."""
@@ -122,6 +136,10 @@ def scenario(rng, kind=None, mode=None, removal=None, builtin_p=0.6, prog_p=0.4)
             sc["Tperm"] = min(sc["Tperm"], sc["T0"] - 20.0)
     if rng.random() < 0.1:
         sc["m0"] = int(max(1, round(sc["m0"])))
+    if rng.random() < 0.1:
+        sc["A"] = gen.as_given(rng, max(2.0, sc["A"]), p_int=0.5, p_np=0.5)
+    if sc["pperm"] is not None and rng.random() < 0.2:
+        sc["pperm"] = gen.as_given(rng, sc["pperm"], p_int=0.0, p_np=1.0)
     return sc
 
 
@@ -179,10 +197,15 @@ def prepare(rng, sc):
     if "dt" not in sc:
         tot = first_step_flux(perv, sc)
         if tot is None:
-            return None
-        sc["dt"] = sc["removal"] * sc["m0"] / (tot * sc["A"])
+            if not sc.get("extreme"):
+                return None
+            # no usable flux at the start (permeate side at or above the feed side): the run is attempted all the same
+            sc["dt"] = gen.logu(rng, 1e-4, 1.0)
+        else:
+            sc["dt"] = sc["removal"] * sc["m0"] / (tot * sc["A"])
     if sc.get("want_prog") and sc["prog"] is None:
-        sc["prog"] = make_program(rng, sc["T0"], sc["dt"] * sc["N"])
+        mk = make_extreme_program if sc.get("extreme_prog") else make_program
+        sc["prog"] = mk(rng, sc["T0"], sc["dt"] * sc["N"])
     return perv
 
 
@@ -246,6 +269,12 @@ def state_lines(perv, sc, res, with_std=True):
     out = []
     prog = sc["prog"] if not sc["kind"].endswith("_iso") else None
     fits = m.permeance_fits
+
+    def safe(f):
+        try:
+            return float(f())
+        except (OverflowError, ZeroDivisionError, ValueError):
+            return float("nan")
     for k in range(n):
         def get(series, idx=k):
             try:
@@ -262,10 +291,10 @@ def state_lines(perv, sc, res, with_std=True):
               "T": F(T), "J1": F(J[0]), "J2": F(J[1]), "y": F(yk.p), "ytype": yk.type,
               "P1": F(P[0].value), "P2": F(P[1].value), "Punits": P[0].units,
               "Qevap": F(get(m.feed_evaporation_heat)), "hasQcond": qc is not None, "Qcond": F(qc if qc is not None else 0.0),
-              "h1": F(c1.get_vaporisation_heat(T) / M1 * 1000), "h2": F(c2.get_vaporisation_heat(T) / M2 * 1000),
-              "cp1": F(c1.get_specific_heat(T) / M1), "cp2": F(c2.get_specific_heat(T) / M2)}
+              "h1": F(safe(lambda: c1.get_vaporisation_heat(T) / M1 * 1000)), "h2": F(safe(lambda: c2.get_vaporisation_heat(T) / M2 * 1000)),
+              "cp1": F(safe(lambda: c1.get_specific_heat(T) / M1)), "cp2": F(safe(lambda: c2.get_specific_heat(T) / M2))}
         if prog is not None:
-            st["progT"] = F(prog.program(float(get(m.time))))
+            st["progT"] = F(safe(lambda: prog.program(float(get(m.time)))))
         else:
             st["progT"] = 0.0
         if with_std:
@@ -377,6 +406,16 @@ def record_job(job):
         sc = scenario(rng, kind=kind, removal=rem, prog_p=0.0 if opts.get("overcool") else 0.4)
         if opts.get("overcool"):
             sc["N"] = 2                            # the over-cooled state is the last one reported
+        if opts.get("extreme"):
+            # programmes leaving the physical range; permeate sides at or above the feed side
+            sc["removal"] = gen.logu(rng, 1e-6, 1e-2)
+            sc["extreme"] = True
+            if sc["kind"].endswith("noniso") and rng.random() < 0.7:
+                sc["want_prog"], sc["extreme_prog"] = True, True
+            if sc["mode"] == "temp":
+                sc["Tperm"] = float(sc["T0"]) + rng.uniform(-10.0, 30.0)
+            elif sc["mode"] == "press":
+                sc["pperm"] = gen.logu(rng, 0.5, 60.0)
         if opts.get("maxN"):
             sc["N"] = min(sc["N"], opts["maxN"])
         if pool and rng.random() < 0.25:
